@@ -73,6 +73,16 @@ CLAIMED = {
             "time-integrated clause is checked on real runs.",
             "Measured, not proved: slope-implied clause, N(t)=N0+∫rate on dopri5 output.",
             "DESIGN §6 C03"),
+    "C19": ("Lean 4 proof that the nested BH-only derivative is the projection of the full stellar-evolution derivative (same turn-off bin, "
+            "flux and definedness for every state; same BH entries up to the final age under full retention; nothing deposited afterwards), "
+            "that the reported age is where the turn-off mass equals BH_mi.lower+0.1 and every earlier turn-off star makes a BH, that the "
+            "loss bookkeeping returns the IMF number and mass above the final turn-off, that remnant mass of a piece never exceeds its "
+            "progenitors' mass, and the from_BHMF binning (C11 reuse); duplicated closures and constants bridged to EvolvedMF's by the translator "
+            "+ correspondence of `_derivs_BHs`, age, bookkeeping and from_BHMF + twin constructions",
+            "Theorem C19_partial; that the two dopri5 runs agree is observed at default and tightened tolerance (partial); kicks are C15's "
+            "per-bin theorem, checked here through N, M and _kicked_M.",
+            "The nested closure is captured through scipy's ode wrapper; bins/IFMR rebuilt from the configuration.",
+            "DESIGN §6 C19"),
     "C18": ("Lean 4 proof of degree-one homogeneity of every building block (turn-off flux, both escape branches, ejection loop, kicks, "
             "binned initial values) under the explicit proviso that no 0.1-object comparison flips + real derivative/construction pairs",
             "Theorem C18_partial; on the real code: derivatives at (λy, λ·rate) vs λ·derivatives, construction pairs at tightened "
